@@ -42,7 +42,8 @@ package store
 // The pragma guard over a request: nil iff no statement is a breaking PRAGMA (C15); no heap effect.
 //@ func (*PragmaCheckRequest) Check
 //@   assigns nothing
-//@   loop 1 invariant [none-so-far] true
+//@   loop 1 invariant [none-so-far] forall j int :: (0 <= j && j < _i) ==> !isBreaking(p.Statements[j].Sql)
+//@   ensures [nil-iff-none] (result == nil) == (p == nil || (forall j int :: (0 <= j && j < len(p.Statements)) ==> !isBreaking(p.Statements[j].Sql)))
 //
 //@ func IsStaleRead
 //@   pure
